@@ -34,6 +34,7 @@ _IPV4_DEC = ["Ipv4Slice::from_slice", "Ipv4HeaderSlice::*"]
 
 ID = "C10"
 PROP = {
+    "max_jobs": 4,  # parallel CBMC jobs (memory profile of these harnesses)
     "claim":
         "Per builder path (link x vlan x net x transport CONCRETE per harness, every value symbolic, payload 0..=6 "
         "symbolic bytes of every length): a write succeeds, emits exactly size(payload_len) bytes, and an independent "
